@@ -25,6 +25,7 @@ struct DumpOpts {
     bool dynamic = true;       // status etc.
     bool action_start_time = true;
     bool stop_without_crossflow_is_shut = false;   // C05 only
+    bool wpimult = true;       // Connection::wpimult() (not stored in restart files: C05 turns it off)
 };
 
 std::vector<Item> dump_state(const Opm::Schedule& sched, std::size_t step, const Opm::SummaryState& st, const DumpOpts& o = {});
